@@ -36,15 +36,15 @@ func (p prefix) mask() uint32 {
 	}
 	return ^uint32(0) << (32 - p.ones)
 }
-func (p prefix) canon() prefix         { return prefix{p.ip & p.mask(), p.ones} }
-func (p prefix) covers(a uint32) bool  { return a&p.mask() == p.ip&p.mask() }
-func (p prefix) first() uint32         { return p.ip & p.mask() }
-func (p prefix) last() uint32          { return p.ip&p.mask() | ^p.mask() }
-func (p prefix) String() string        { return fmt.Sprintf("%s/%d", ip4(p.ip), p.ones) }
-func ip4(a uint32) net.IP              { b := make(net.IP, 4); binary.BigEndian.PutUint32(b, a); return b }
-func (p prefix) ipnet() *net.IPNet     { return &net.IPNet{IP: ip4(p.ip), Mask: net.CIDRMask(p.ones, 32)} }
-func u32(a, b, c, d uint32) uint32     { return a<<24 | b<<16 | c<<8 | d }
-func filler(k int) prefix              { return prefix{u32(172, uint32(16+k/256), uint32(k%256), 0), 24} }
+func (p prefix) canon() prefix        { return prefix{p.ip & p.mask(), p.ones} }
+func (p prefix) covers(a uint32) bool { return a&p.mask() == p.ip&p.mask() }
+func (p prefix) first() uint32        { return p.ip & p.mask() }
+func (p prefix) last() uint32         { return p.ip&p.mask() | ^p.mask() }
+func (p prefix) String() string       { return fmt.Sprintf("%s/%d", ip4(p.ip), p.ones) }
+func ip4(a uint32) net.IP             { b := make(net.IP, 4); binary.BigEndian.PutUint32(b, a); return b }
+func (p prefix) ipnet() *net.IPNet    { return &net.IPNet{IP: ip4(p.ip), Mask: net.CIDRMask(p.ones, 32)} }
+func u32(a, b, c, d uint32) uint32    { return a<<24 | b<<16 | c<<8 | d }
+func filler(k int) prefix             { return prefix{u32(172, uint32(16+k/256), uint32(k%256), 0), 24} }
 
 // a small universe built to collide: nested, adjacent, extreme lengths and
 // non-canonical spellings of the same network
